@@ -29,10 +29,17 @@ fn row_shape(r: &Row, verdict: Option<&'static str>, jar: &JarIndex, applying: &
         match &r.method { None => "no_method", Some(_) if method_present(jar, r) => "method_declared", Some(_) => "method_not_declared" })
 }
 
+fn depth_bucket(d: usize) -> String { match d { 0..=5 => d.to_string(), 6..=9 => "6-9".into(), 10..=15 => "10-15".into(), 16..=24 => "16-24".into(), _ => "25+".into() } }
+/// counts `key.<bucket>`, `key.ge_10`, `key.ge_16` and the same per row order
+fn count_depth(rep: &mut Report, key: &str, d: usize, order: RowOrder) {
+    rep.count(&format!("{key}.max_chain_depth.{}", depth_bucket(d)));
+    for t in [6usize, 10, 16] { if d >= t { rep.count(&format!("{key}.chain_depth_ge_{t}")); rep.count(&format!("{key}.chain_depth_ge_{t}.rows_{}", order.name())); } }
+}
+
 struct MapOutcome { applied: Option<Maps> }
 
 /// The mapping-side judgement shared by both workloads. `names_all` = new names by the construction over the whole table.
-fn map_side(rng: &mut Rng, rep: &mut Report, rows: &[Row], text: &str, m: &Maps, shapes: &BTreeMap<String, TargetShape>, names_all: &BTreeMap<String, String>) -> MapOutcome {
+fn map_side(rng: &mut Rng, rep: &mut Report, rows: &[Row], text: &str, m: &Maps, shapes: &BTreeMap<String, TargetShape>, names_all: &BTreeMap<String, String>, order: RowOrder) -> MapOutcome {
     let detail = || json!({"table": text, "mappings": m.render()});
     let mut out = MapOutcome { applied: None };
     let nests = match mapside::read_table::<Src>(text) {
@@ -73,6 +80,9 @@ fn map_side(rng: &mut Rng, rep: &mut Report, rows: &[Row], text: &str, m: &Maps,
             maps::watch(rep, "C14", "apply_nests_to_mappings", &a, &detail);
             let got = maps::from_quill(&a);
             rep.count("apply.judged");
+            let all_rows: Vec<&Row> = rows.iter().collect();
+            let max_depth = rows.iter().map(|r| chain_depth(r, &all_rows)).max().unwrap_or(0);
+            count_depth(rep, "apply.judged", max_depth, order);
             let listed_new: BTreeSet<String> = names_all.values().cloned().collect();
             let listed_old: BTreeSet<String> = names_all.keys().cloned().collect();
             rep.add("apply.unlisted_class_entries_with_judged_target_name", m.classes.keys().filter(|k| !listed_old.contains(*k)).count() as u64);
@@ -90,6 +100,7 @@ fn map_side(rng: &mut Rng, rep: &mut Report, rows: &[Row], text: &str, m: &Maps,
                     maps::watch(rep, "C14", "undo_nests_to_mappings", &u, &detail);
                     let back = maps::from_quill(&u);
                     rep.count("undo.judged");
+                    count_depth(rep, "undo.judged", max_depth, order);
                     if mapside::judge_maps(rep, "undo(apply(M)) vs M", m, &back, &listed_old, &detail) { rep.count("undo.restores_source_names_and_descriptors"); }
                 }
             }
@@ -101,19 +112,22 @@ fn map_side(rng: &mut Rng, rep: &mut Report, rows: &[Row], text: &str, m: &Maps,
 
 fn jar_case(rng: &mut Rng, rep: &mut Report) {
     let mut names = Names::new();
-    let n = rng.usize_in(3, 8);
+    // 1 case in 8: one chain of 6..=24 nests (lean class bodies, so that a 25-class jar stays cheap)
+    let deep = if rng.chance(1, 8) { Some(rng.usize_in(6, 24)) } else { None };
+    let order = RowOrder::pick(rng);
+    let n = match deep { Some(d) => d + 1 + rng.below(3), None => rng.usize_in(3, 8) };
     let present = gen_present(rng, &mut names, n);
     let mut pool = present.clone();
     for _ in 0..2 { pool.push(names.top(rng)); }
     let mut bodies: Vec<(String, cf::model::Class)> = vec![];
     for (k, name) in present.iter().enumerate() {
-        let mut c = jarside::gen_body(rng, name, &pool);
+        let mut c = jarside::gen_body(rng, name, &pool, deep.is_some());
         c.source_file = Some(cf::model::JS::new(&format!("id{k}.java")));
         bodies.push((name.clone(), c));
     }
     let methods: BTreeMap<String, Vec<(String, String)>> = bodies.iter().map(|(n, c)| (n.clone(), jarside::methods_of(c))).collect();
-    let all_apply = rng.chance(2, 5);
-    let rows = gen_rows(rng, &mut names, &present, &methods, &RowCfg { max_rows: 6, all_apply, absent_rows: true });
+    let all_apply = if deep.is_some() { rng.chance(3, 5) } else { rng.chance(2, 5) };
+    let rows = gen_rows(rng, &mut names, &present, &methods, &RowCfg { max_rows: 6, all_apply, absent_rows: true, deep, order });
     let mut universe = universe_of(&present, &rows);
     universe.extend(pool.iter().cloned());
     let index = jarside::jar_index(&bodies);
@@ -150,17 +164,30 @@ fn jar_case(rng: &mut Rng, rep: &mut Report) {
         rep.count(&format!("rows.{}.{}", r.kind().name(), if v.is_none() { "applies" } else { "does_not_apply" }));
         if let Some(w) = v { rep.count(&format!("rows.not_applying.{w}")); }
         if v.is_none() {
-            let d = chain_depth(r, &applying); rep.count(&format!("rows.applying.chain_depth.{}", d.min(5)));
+            let d = chain_depth(r, &applying); rep.count(&format!("rows.applying.chain_depth.{}", depth_bucket(d)));
             if exp.names.get(&r.class) == Some(&r.class) { rep.count("rows.applying.name_unchanged"); } else { renames += 1; }
             if !index.contains_key(&r.encl) { rep.count("rows.applying.enclosing_class_missing"); }
             // chain whose upper part does not apply: the enclosing class has a row that does not apply
             if rows.iter().zip(&exp.verdicts).any(|(o, ov)| o.class == r.encl && ov.is_some()) { rep.count("rows.applying.below_a_row_that_does_not_apply"); }
-            match r.kind() { Kind::Anonymous => rep.count(if r.method.is_some() { "rows.anonymous.with_method" } else { "rows.anonymous.without_method" }), _ => {} }
+            if r.kind() == Kind::Anonymous {
+                rep.count(if r.method.is_some() { "rows.anonymous.with_method" } else { "rows.anonymous.without_method" });
+                if scenario::ANON_BOUNDARY.contains(&r.inner.as_str()) { rep.count(&format!("rows.anonymous.applies.number.{}", r.inner)); }
+            }
         } else if index.contains_key(&r.class) && !index.contains_key(&r.encl) { rep.count("rows.not_applying.class_present_enclosing_missing"); }
         if r.method.is_some() != method_present(&index, r) && r.method.is_some() { rep.count("rows.method_named_but_not_declared"); }
         shapes_fp.push(sh);
     }
     shapes_fp.sort();
+    let max_depth_jar = exp.applying.iter().map(|r| chain_depth(r, &applying)).max().unwrap_or(0);
+    if max_depth_jar >= 6 {
+        // kinds along the deepest applying chain
+        let by: BTreeMap<&str, &Row> = applying.iter().map(|r| (r.class.as_str(), *r)).collect();
+        if let Some(bottom) = exp.applying.iter().max_by_key(|r| chain_depth(r, &applying)) {
+            let mut kinds = std::collections::BTreeSet::new(); let mut cur = Some(bottom);
+            while let Some(r) = cur { kinds.insert(r.kind()); cur = by.get(r.encl.as_str()).copied(); }
+            rep.count(&format!("deep.jar.kinds_along_the_deepest_chain.{}", kinds.len()));
+        }
+    }
     let everything_applies = exp.verdicts.iter().all(|v| v.is_none());
     if everything_applies { rep.count("tables.all_rows_apply"); } else { rep.count("tables.some_row_does_not_apply"); }
 
@@ -174,6 +201,7 @@ fn jar_case(rng: &mut Rng, rep: &mut Report) {
             rep.count(if through_zip { "jar.through_zip" } else { "jar.in_memory" });
             let j = jarside::judge_jar(rep, &inputs, &others, &rows, &exp, &out, &detail);
             if j.ok { rep.count("jar.whole_jar_equal_to_expectation"); }
+            count_depth(rep, "jar.judged", max_depth_jar, order);
             // observed name of every input class, found through its SourceFile marker (independent of the expectation)
             for (_, e) in &out {
                 if let OutEntry::Class(Ok(b)) = e { if let Ok(c) = cf::parse::parse(b) { if let Some(sf) = &c.source_file { if let Some(k) = sf.show().strip_prefix("id").and_then(|s| s.strip_suffix(".java")).and_then(|s| s.parse::<usize>().ok()) { jar_names.insert(k, c.this_class.show()); } } } }
@@ -187,7 +215,7 @@ fn jar_case(rng: &mut Rng, rep: &mut Report) {
     let want_methods: Vec<(String, (String, String))> = rows.iter().filter_map(|r| r.method.clone().map(|m| (r.encl.clone(), m))).collect();
     let (mut m, tshapes) = gen_mappings(rng, &universe, &present, &want_methods, false);
     for (k, name) in present.iter().enumerate() { if let Some(c) = m.classes.get_mut(name) { c.comment = Some(format!("id{k}")); } }
-    let mo = map_side(rng, rep, &rows, &text, &m, &tshapes, &names_all);
+    let mo = map_side(rng, rep, &rows, &text, &m, &tshapes, &names_all, order);
     if let Some(applied) = &mo.applied {
         let mut map_names: BTreeMap<usize, String> = BTreeMap::new();
         for c in applied.classes.values() { if let Some(k) = c.comment.as_deref().and_then(|s| s.strip_prefix("id")).and_then(|s| s.parse::<usize>().ok()) { if let Some(n0) = &c.names[0] { map_names.insert(k, n0.clone()); } } }
@@ -195,6 +223,7 @@ fn jar_case(rng: &mut Rng, rep: &mut Report) {
             let differing: Vec<usize> = (0..present.len()).filter(|k| jar_names.get(k) != map_names.get(k)).collect();
             if everything_applies {
                 rep.count("agreement.tables_judged");
+                count_depth(rep, "agreement.tables_judged", max_depth_jar, order);
                 rep.add("agreement.classes_compared", present.len() as u64);
                 if !differing.is_empty() {
                     let k = differing[0];
@@ -212,7 +241,9 @@ fn jar_case(rng: &mut Rng, rep: &mut Report) {
 /// `small` = tiny scenarios (the slice the interpreter runs)
 fn maps_case(rng: &mut Rng, rep: &mut Report, small: bool) {
     let mut names = Names::new();
-    let n = if small { rng.usize_in(2, 4) } else { rng.usize_in(2, 9) };
+    let deep = if !small && rng.chance(1, 6) { Some(rng.usize_in(6, 24)) } else { None };
+    let order = RowOrder::pick(rng);
+    let n = match deep { Some(d) => d + 1 + rng.below(3), None => if small { rng.usize_in(2, 4) } else { rng.usize_in(2, 9) } };
     let present = gen_present(rng, &mut names, n);
     let mut methods: BTreeMap<String, Vec<(String, String)>> = BTreeMap::new();
     for c in &present {
@@ -220,7 +251,7 @@ fn maps_case(rng: &mut Rng, rep: &mut Report, small: bool) {
         for k in 0..rng.below(3) { let d = match rng.below(3) { 0 => "()V".to_string(), 1 => format!("(L{};)V", rng.pick(&present)), _ => format!("(I)[L{};", rng.pick(&present)) }; v.push((format!("m{k}"), d)); }
         methods.insert(c.clone(), v);
     }
-    let rows = gen_rows(rng, &mut names, &present, &methods, &RowCfg { max_rows: if small { 3 } else { 7 }, all_apply: false, absent_rows: true });
+    let rows = gen_rows(rng, &mut names, &present, &methods, &RowCfg { max_rows: if small { 3 } else { 7 }, all_apply: false, absent_rows: true, deep, order });
     let universe = universe_of(&present, &rows);
     let all_rows: Vec<&Row> = rows.iter().collect();
     let names_all = new_names(&all_rows);
@@ -231,9 +262,9 @@ fn maps_case(rng: &mut Rng, rep: &mut Report, small: bool) {
     rep.eval();
     let mut fp: Vec<String> = rows.iter().map(|r| format!("{}:d{}:{:?}:{}", r.kind().name(), chain_depth(r, &all_rows), tshapes.get(&r.class), r.method.is_some())).collect();
     fp.sort();
-    for r in &rows { rep.count(&format!("maps.rows.chain_depth.{}", chain_depth(r, &all_rows).min(5))); }
+    for r in &rows { rep.count(&format!("maps.rows.chain_depth.{}", depth_bucket(chain_depth(r, &all_rows)))); }
     let listed_with_entry = rows.iter().filter(|r| m.classes.contains_key(&r.class)).count();
-    let mo = map_side(rng, rep, &rows, &text, &m, &tshapes, &names_all);
+    let mo = map_side(rng, rep, &rows, &text, &m, &tshapes, &names_all, order);
     let touched = m.classes.values().any(|c| c.fields.keys().chain(c.methods.keys()).any(|(_, d)| maps::desc::classes_of(d).iter().any(|x| names_all.get(x).is_some_and(|nn| nn != x))));
     if listed_with_entry > 0 && touched { rep.nontrivial(hash_parts(&[format!("maps n={n}"), fp.join(",")])); }
     if rep.want_sample() && mo.applied.is_some() && listed_with_entry > 0 && rep.samples.len() < 2 { rep.sample(|| json!({"kind": "mapping case", "table": text, "mappings": m.render(), "expected source names": names_all})); }
@@ -254,9 +285,9 @@ fn self_checks() -> Result<(), String> {
         tried += 1;
         let mut names = Names::new();
         let present = gen_present(&mut rng, &mut names, 4);
-        let bodies: Vec<(String, cf::model::Class)> = present.iter().map(|n| (n.clone(), jarside::gen_body(&mut rng, n, &present))).collect();
+        let bodies: Vec<(String, cf::model::Class)> = present.iter().map(|n| (n.clone(), jarside::gen_body(&mut rng, n, &present, false))).collect();
         let methods: BTreeMap<String, Vec<(String, String)>> = bodies.iter().map(|(n, c)| (n.clone(), jarside::methods_of(c))).collect();
-        let rows = gen_rows(&mut rng, &mut names, &present, &methods, &RowCfg { max_rows: 3, all_apply: true, absent_rows: false });
+        let rows = gen_rows(&mut rng, &mut names, &present, &methods, &RowCfg { max_rows: 3, all_apply: true, absent_rows: false, deep: None, order: RowOrder::Shuffled });
         let universe = universe_of(&present, &rows);
         let index = jarside::jar_index(&bodies);
         let exp = expect_jar(&index, &rows);
@@ -434,10 +465,17 @@ fn main() {
             meta.oblige(format!("{k} rows that apply and {k} rows whose class is present but whose rule fails"), rep.get(&format!("rows.{k}.applies")) > 20 && rep.counters.iter().any(|(c, v)| c.starts_with(&format!("rows.not_applying.{k}:")) && *v > 5));
         }
         meta.oblige("applying chains of depth 1, 2, 3 and 4", (1..=4).all(|d| rep.get(&format!("rows.applying.chain_depth.{d}")) > 0));
+        meta.oblige("jars judged whose deepest applying chain has >= 10 nests (>= 30 jars) and >= 16 nests (>= 10 jars), with all three kinds along one deep chain",
+            rep.get("jar.judged.chain_depth_ge_10") >= 30 && rep.get("jar.judged.chain_depth_ge_16") >= 10 && rep.get("deep.jar.kinds_along_the_deepest_chain.3") >= 10);
+        meta.oblige("jar/mappings agreement judged on all-applying tables with a chain of >= 10 nests (>= 20 tables) and >= 16 nests (>= 5), and for each row order (deepest row first / last / shuffled) with >= 10 nests",
+            rep.get("agreement.tables_judged.chain_depth_ge_10") >= 20 && rep.get("agreement.tables_judged.chain_depth_ge_16") >= 5 && ["deepest_first", "deepest_last", "shuffled"].iter().all(|o| rep.get(&format!("agreement.tables_judged.chain_depth_ge_10.rows_{o}")) >= 3));
+        meta.oblige("apply and undo(apply) judged on tables with a chain of >= 10 nests (>= 50) and >= 16 nests (>= 20), in each row order",
+            ["apply.judged", "undo.judged"].iter().all(|k| rep.get(&format!("{k}.chain_depth_ge_10")) >= 50 && rep.get(&format!("{k}.chain_depth_ge_16")) >= 20 && ["deepest_first", "deepest_last", "shuffled"].iter().all(|o| rep.get(&format!("{k}.chain_depth_ge_16.rows_{o}")) >= 5)));
         meta.oblige("applying row below a row that does not apply (chain interrupted)", rep.get("rows.applying.below_a_row_that_does_not_apply") > 5);
         meta.oblige("rows for classes that are not in the jar", rep.get("rows.not_applying.class not in the jar") > 20);
         meta.oblige("missing enclosing classes created (>= 20) and a missing enclosing class named only by a row that does not apply", rep.get("jar.created_enclosing_classes") >= 20 && rep.get("rows.not_applying.class_present_enclosing_missing") > 0);
         meta.oblige("applying rows that do not change the name (A$B in A)", rep.get("rows.applying.name_unchanged") > 5);
+        meta.oblige("anonymous numbers around integer-width boundaries (255/256, 32767/32768, 65535/65536, 2^31-1) in applying rows", ["255", "256", "32767", "32768", "65535", "65536", "2147483647"].iter().all(|k| rep.get(&format!("rows.anonymous.applies.number.{k}")) > 0));
         meta.oblige("anonymous rows with and without enclosing method; rows naming a method the enclosing class does not declare", rep.get("rows.anonymous.with_method") > 0 && rep.get("rows.anonymous.without_method") > 0 && rep.get("rows.method_named_but_not_declared") > 10);
         meta.oblige("at least 200 references to renamed classes expected in the nested jars", rep.get("jar.references_rewritten_expected") >= 200);
         meta.oblige("jars read from memory and through a zip archive", rep.get("jar.in_memory") > 0 && rep.get("jar.through_zip") > 0);
